@@ -151,6 +151,17 @@ def _wrap_act_on_expression(orig):
                             OBS.triggers.add("null_cmp")
             except Exception:
                 pass
+        if name in ("concat", "%+%"):
+            # text concatenation with a missing operand: 'NoneNone' / 'nan...' on Pandas, NULL in SQL (a recorded
+            # convention point the generators keep out of; the shrinker may drift into it)
+            try:
+                import pandas
+
+                for v in values:
+                    if v is None or (hasattr(v, "__len__") and not isinstance(v, (str, dict, list, set, tuple)) and bool(pandas.isnull(v).any())):
+                        OBS.triggers.add("str_null")
+            except Exception:
+                pass
         if name in ("sin", "cos") and len(values) == 1:
             # sin / cos of a huge argument amplify the last-bit differences of whatever computed the argument
             # (var() = 249999041502.848 vs ...502.84793 gives sines 7e-5 apart): ill-conditioned, not judged
